@@ -326,6 +326,10 @@ def runPlan (fs : List TransAtom) (stop : State → Action → State → Bool) (
 
 def handleWin (op : String) : P String := do
   match op with
+  | "splitsok" => do
+      let n ← pInt
+      let l ← pCounted pInt
+      pure (showBool (splitsOKb n l) ++ " " ++ showBool (hasDup l))
   | "win" => do
       let mode ← tok
       let fs ← pCounted pTransAtom
